@@ -15,12 +15,12 @@ for pid in props:
                 ctx = m.group(1).strip()[:60] if m else ''
                 taken.append('%s [%s]' % (cur, ctx))
     taken = sorted(set(taken))
-    avoid = ("This round asks for a change of one of these kinds: (a) an INTERACTION of two features that each still work alone - the property fails only when both are in use together "
-             "(e.g. a penalty with a reducer, constraints with a change of ranges, monitors with a restart, a map with an evaluation monitor, a mask with an index, two decorators stacked, a tolerance with a named constant); "
-             "(b) a LIFECYCLE slip - an object used again after it finished or was reset: a second Solve on the same solver, Finalize then Step, clear() then reuse, a monitor or termination object or constraint shared by two users, "
-             "a generator or iterator consumed twice, state that should have been re-initialised and was not (or was, and should not have been); "
-             "(c) a DOCSTRING CONTRACT - something a docstring example, note or documented default of the anchored functions promises explicitly and the existing tests never check. "
-             "Earlier rounds already changed these places (do NOT reuse the same edit; a different mechanism nearby is fine): " + ' | '.join(taken) + '.')
+    avoid = ("This round asks for NOVELTY of place and for a REFACTOR-style change: (a) the edit must be in a function that none of the earlier changes listed below touched - look further afield: helpers, "
+             "other classes of the same family, setters/getters, __init__ defaults, alternative entry points, code the anchored functions call two levels down; "
+             "(b) write it as a plausible refactor rather than a slip - a loop turned into a vectorised numpy expression or a comprehension, a computed value cached or hoisted out of a loop, an early return added for a "
+             "'trivial' case, two similar branches merged, a helper inlined or extracted, an explicit copy replaced by a view, isinstance checks reordered - where the new form is NOT quite equivalent for some inputs; "
+             "(c) you may look at the scripts under examples/ and examples2/..examples5/ of the checkout (if present) for realistic ways the API is used, and break something such usage relies on. "
+             "Earlier rounds already changed these places (do NOT touch these functions again): " + ' | '.join(taken) + '.')
     name = 'seed%s%s' % (pid, suffix)
     out = subprocess.run([sys.executable, '/verif/tools/mkprompt.py', pid, name, avoid], capture_output=True, text=True).stdout
     open('/tmp/sa/prompt.%s%s.txt' % (pid, suffix), 'w').write(out)
